@@ -210,6 +210,16 @@ def _gates(tier):
     yield dict(name="hyperv.holes.key_table_signature[1]", kind="magic", raw=rawh, off=0x11000, width=2, open=open_hv)
     yield dict(name="hyperv.holes.key_table_signature[2]", kind="magic", raw=rawh, off=0x12000, width=2, open=open_hv)
     yield dict(name="hyperv.holes.replay_log_signature", kind="magic", raw=rawh, off=0x9000, width=4, open=open_hv)
+    # more object-table entries than fit one 4 KiB block: the structure named by the last entry
+    many = BHV.build({"configuration": (BHV.T_NODE, {f"k{i}": (BHV.T_INT, i) for i in range(245)})}, ntables=240)
+    yield dict(name="hyperv.many.key_table_signature[239]", kind="magic", raw=many, off=0x10000 + 239 * 0x1000, width=2, open=open_hv)
+    yield dict(name="hyperv.many.key_table_signature[228]", kind="magic", raw=many, off=0x10000 + 228 * 0x1000, width=2, open=open_hv)
+    # a superseded copy of a key table (same index, lower sequence number), listed before or after the current one
+    for where, positions in (("first", [0]), ("last", [99])):
+        for seq in (3, 9):
+            raws = BHV.build(tree3, ntables=2, table_seq=5, stale={1: seq}, stale_tree=tree3, stale_positions=positions)
+            yield dict(name=f"hyperv.competing-copy.{where}.seq{seq}.key_table_signature", kind="magic", raw=raws, off=0x12000, width=2,
+                       open=open_hv)
     for depth, shape in ((1, "chain"), (2, "chain"), (3, "chain"), (2, "tail"), (3, "fan")):
         # 3 key tables + 1 replay log = 4 object entries dealt round-robin over depth+1 tables
         raw = BHV.build(tree3, ntables=3, object_table_chain=depth, chain_shape=shape, extra_replay_log=True, holes=depth % 2)
